@@ -396,7 +396,7 @@ def plan(tier, seed):
     pl.finite = [("C15-F/matching_from_names", matching_table), ("C15-U/uniform-loops", lambda: uniform.check(LOOPS))]
     from vfkit import lean as _leanc
     pl.finite.append(("A6/Lean re-check of the composition lemmas L-IND", _leanc.compose_check('L-IND')))
-    ntok = 4 if tier == "quick" else 6
+    ntok = 4 if tier == "quick" else 7
 
     def net():
         from vfkit import bounded as _b
